@@ -36,7 +36,7 @@ class C02(Prop):
     components = {"real": ["baize.asgi.responses.FileResponse (handle_all/single/several, fake_sendfile, zero-copy)", "baize.wsgi.responses.FileResponse",
                            "baize.responses.FileResponseMixin", "baize.concurrency.run_in_threadpool", "os.open/lseek/read on real temp files"],
                   "stub": ["ASGI server incl. zero-copy reader", "WSGI server", "event loop clock/selector, executor inlined at seeded instants", "random boundary fixed by random.seed"]}
-    hard_probes = ("multipart_206", "single_206", "status_416", "status_400", "if_range_match", "if_range_mismatch", "zerocopy_message", "executor_latency", "head_compared")
+    hard_probes = ("multipart_206", "single_206", "status_416", "status_400", "if_range_match", "if_range_mismatch", "zerocopy_message", "executor_latency", "head_compared", "file_modified_after_validators_were_handed_out")
     quick_runs = 150000
     thorough_runs = 2000000
     batch = 500
@@ -65,7 +65,10 @@ class C02(Prop):
             c = t.choice([max(1, size), size + 1, max(1, size - 1)])
         rng, kind = (None, "absent") if t.draw(6) == 0 else rg.gen_range(t, size, c)
         return {"size": size, "chunk": c, "range": rng, "if_range": t.weighted([(5, "absent"), (2, "etag"), (2, "lm"), (1, "weak"), (1, "stale"), (1, "otherdate"), (1, "junk")]),
-                "iface": t.choice(["wsgi", "asgi", "asgi-zc"]), "lat": t.choice(["fast", "mixed"]), "ctype": t.choice([None, None, "text/x-a", "application/octet-stream"])}
+                "iface": t.choice(["wsgi", "asgi", "asgi-zc"]), "lat": t.choice(["fast", "mixed"]), "ctype": t.choice([None, None, "text/x-a", "application/octet-stream"]),
+                # history: the file is rewritten (same size, other bytes, mtime moved by this many seconds) after the client
+                # obtained its validators - they are then no longer the file's CURRENT validators
+                "modify": t.choice([None, None, None, None, 0.3, 1.0, 5.0])}
 
     def nontrivial(self, plan, ctx, variant):
         return plan["range"] is not None and (ctx.notes.get("emissions", 0) >= 3 or bool(ctx.faults))
@@ -101,6 +104,10 @@ class C02(Prop):
         size = plan["size"]
         rel = self.file_for(size)
         content = pattern(size)
+        base_mtime = 1_600_000_000.0 + size
+        if plan.get("modify") and size > 0:
+            rel = "c02/mod.bin"
+            self.fs.write(rel, content, mtime=base_mtime, ctime=base_mtime)
         surf = plan["iface"]
         ctx.actors = 2
 
@@ -135,6 +142,16 @@ class C02(Prop):
         if ir_value is not None:
             headers.append(("if-range", ir_value))
         honoured = ir in ("absent", "etag", "lm")
+        if plan.get("modify") and size > 0:
+            from email.utils import formatdate
+            ctx.fault("file_modified_after_validators_were_handed_out")
+            content = bytes((b + 1) % 251 for b in content)
+            new_mtime = base_mtime + plan["modify"]
+            self.fs.write(rel, content, mtime=new_mtime, ctime=new_mtime)
+            if ir == "etag":
+                honoured = False          # the entity tag the client holds is not the current one any more
+            elif ir == "lm":
+                honoured = formatdate(new_mtime, usegmt=True) == lm      # within the same second the date cannot tell
         if plan["range"] is not None and ir != "absent":
             ctx.probe("if_range_match" if honoured else "if_range_mismatch")
         get = self._request(plan, ctx, "GET", headers, rel)
